@@ -587,7 +587,8 @@ fn prog(role: u8, var: u8, ops: &[TOp]) -> Prog {
 fn tiny_programs(thorough: bool) -> Vec<(Vec<Prog>, bool, usize)> {
     use TOp::*;
     // quick: two preemptions for the two core programs, one for the others;
-    // thorough: two for all, three for the core program without probes
+    // thorough: two for all two-thread programs (three preemptions over ~250 yield points would be
+    // 2.6 million schedules per program: left to the random part)
     let rest = if thorough { 2 } else { 1 };
     let mut v = vec![
         // the DESIGN program: sender and receiver come and go
@@ -612,7 +613,6 @@ fn tiny_programs(thorough: bool) -> Vec<(Vec<Prog>, bool, usize)> {
         (vec![prog(1, 0, &[Create, AbandonRemove]), prog(0, 0, &[Create, Drop]), prog(1, 0, &[Create])], false, 1),
     ];
     if thorough {
-        v.push((vec![prog(0, 0, &[Create, Drop]), prog(1, 0, &[Create, Drop])], false, 3));
         v.push((vec![prog(0, 0, &[Create, Drop, Create, Drop]), prog(1, 0, &[Create, Drop, Create])], false, 2));
         v.push((vec![prog(1, 2, &[Create, AbandonRemove]), prog(0, 0, &[Create, Drop, Create])], true, 2));
     }
@@ -717,7 +717,7 @@ pub fn conc_parts(ctx: &mut Ctx) {
         if !ctx.part_enabled(part) {
             continue;
         }
-        let total = if weak { ctx.scale(10_000u64, 300_000) } else { ctx.scale(30_000u64, 1_000_000) };
+        let total = if weak { ctx.scale(10_000u64, 200_000) } else { ctx.scale(30_000u64, 600_000) };
         let n = ctx.share(total);
         let mut rng = ctx.rng(part);
         let maxp = ctx.scale(3, 5);
